@@ -211,18 +211,19 @@ fn run_case(case: &Value, c: &Cfg, sink: &Arc<GateSink>) -> Result<Outcome, Stri
 				let st = sink.status_w(w.token, STEP);
 				let got = match &st {
 					StatusW::Parked("commit.permit", _) => "permit",
+					StatusW::Parked("stall.decided", _) => "decided",
 					StatusW::Waiting("stall.wait", _) => "stalled",
 					StatusW::Done => "idle",
 					_ => "?",
 				};
-				if got == "stalled" {
+				if got == "decided" {
 					out.stalls += 1;
 				}
 				if want != "-" && got != "?" && want != got {
 					out.drift.push(json!({"kind":"stall_check_differs","step":i,"writer":wname,"model":want,"real":got}));
 				}
 				match st {
-					StatusW::Parked("commit.permit", _) | StatusW::Waiting("stall.wait", _) => {}
+					StatusW::Parked("commit.permit", _) | StatusW::Parked("stall.decided", _) | StatusW::Waiting("stall.wait", _) => {}
 					StatusW::Done => {
 						if let Ok((n, r)) = w.res.recv_timeout(STEP) {
 							w.outstanding = None;
@@ -233,6 +234,32 @@ fn run_case(case: &Value, c: &Cfg, sink: &Arc<GateSink>) -> Result<Outcome, Stri
 						}
 					}
 					other => fail("writer_lost_after_check", json!(format!("{other:?}"))),
+				}
+			}
+			"Await" => {
+				// from the decision to the wait: blocked in the stall (event stall.wait), or woken at once by a signal that
+				// came in between and back at the stall check
+				let w = writers.get_mut(&wname).ok_or("Await before Begin")?;
+				let want = op["r"].as_str().unwrap_or("-");
+				sink.release(w.token);
+				let st = if want == "check" { match sink.status(w.token, STEP) {
+					Status::Parked(s, f) => StatusW::Parked(s, f),
+					Status::Done => StatusW::Done,
+					Status::Timeout => sink.status_w(w.token, Duration::from_millis(10)),
+				} } else { sink.status_w(w.token, STEP) };
+				let got = match &st {
+					StatusW::Parked("stall.check", _) => "check",
+					StatusW::Waiting("stall.wait", _) => "stalled",
+					_ => "?",
+				};
+				if want != "-" && want != got {
+					if want == "check" && got == "stalled" {
+						// the writer sleeps although the model says a signal is pending for it: a lost wake-up in the making;
+						// the free run at the end decides
+						fail("stalled_writer_not_woken", json!({"writer": wname, "status": format!("{st:?}")}));
+					} else {
+						out.drift.push(json!({"kind":"await_differs","step":i,"writer":wname,"model":want,"real":got,"status":format!("{st:?}")}));
+					}
 				}
 			}
 			"Write" => {
@@ -381,6 +408,7 @@ fn run_case(case: &Value, c: &Cfg, sink: &Arc<GateSink>) -> Result<Outcome, Stri
 				_ => match sink.status_w(w.token, Duration::from_millis(if w.outstanding.is_some() { 4000 } else { 1 })) {
 					StatusW::Parked("stall.check", _) => "check",
 					StatusW::Parked("commit.permit", _) => "permit",
+					StatusW::Parked("stall.decided", _) => "decided",
 					StatusW::Waiting(..) => "stalled",
 					StatusW::Done => "idle",
 					StatusW::Timeout if w.outstanding.is_none() => "idle",
@@ -594,7 +622,7 @@ fn main() {
 	verif_harness::quiet_panics();
 	let sink = GateSink::install();
 	sink.clear_ignored();
-	for s in ["commit.logged", "commit.applied", "commit.marked", "commit.published", "publish.dequeued", "commit.logfail", "txn.begin.loaded", "lock_try", "lock_acquired", "lock_release", "lock_released"] {
+	for s in ["commit.logged", "commit.applied", "commit.marked", "commit.published", "publish.dequeued", "commit.logfail", "txn.begin.loaded", "lock_try", "lock_acquired", "lock_release", "lock_released", "flush.written", "compact.written"] {
 		sink.ignore(s);
 	}
 	sink.wait_event("stall.wait");
